@@ -210,7 +210,7 @@ pub fn check(c: &mut Case, flags: u32, specs: &[AssetSpec], name: &str) {
     let mut bin = AssetBinary::new();
     bin.flags = flags;
     bin.specs = specs.to_vec();
-    let img = match c.lib("AssetBinary::serialize", || bin.serialize()) {
+    let img = match c.lib_stable("AssetBinary::serialize", || bin.serialize().map_err(|e| e.to_string())) {
         None => return,
         Some(Err(e)) => {
             let unrepresentable = specs.iter().any(|s| {
